@@ -668,6 +668,10 @@ func checkCase(c Case, st *stats) []finding {
 // agree completely on this case (same accept/reject decision and, if accepted, same language)?
 // Only used to name a disagreement that has already been established.
 func explainedByQuirk(c Case, opts rxparse.Opts, implOK bool, re *lex.Regexp) string {
+	if !implOK {
+		// Two rejections agree about nothing but the rejection: too weak to name a cause.
+		return ""
+	}
 	var tables *lex.Tables
 	if implOK {
 		t, cerr, crash := compile(re, c.Pattern, c.Bytes)
@@ -680,9 +684,6 @@ func explainedByQuirk(c Case, opts rxparse.Opts, implOK bool, re *lex.Regexp) st
 		alt := rxparse.Parse(c.Pattern, opts, q.q)
 		if alt.OK != implOK {
 			continue
-		}
-		if !implOK {
-			return q.key
 		}
 		if alt.MaxRepeat > 16 {
 			continue
